@@ -7,6 +7,8 @@ import (
 	"os"
 
 	"verif/harness/flushenum"
+	"verif/harness/getenum"
+	"verif/harness/malformed"
 	"verif/harness/ribhist"
 	"verif/harness/sesshist"
 	"verif/report"
@@ -22,6 +24,8 @@ var runners = map[string]runner{
 	"C02": {"model_checking", ribhist.RunC02},
 	"C03": {"model_checking", ribhist.RunC03},
 	"C16": {"model_checking", ribhist.RunC16},
+	"C07": {"model_checking", func(rep *report.Report, tier string) { getenum.Run(rep, tier); ribhist.RunC07Hist(rep, tier) }},
+	"C12": {"model_checking", malformed.Run},
 	"C08": {"model_checking", flushenum.Run},
 	"C04": {"model_checking", sesshist.RunC04},
 	"C05": {"model_checking", sesshist.RunC05},
